@@ -6,25 +6,6 @@ from pathlib import Path
 
 ROOT = Path(__file__).resolve().parents[2]
 
-# id -> (level, technique, text, note, design_ref)
-TABLE: dict[str, tuple[str, str, str, str, str]] = {
-    "C16": (
-        "model_checking",
-        "TLA+ spec CacheFS (inode-level file system, 2 processes, crashes) model-checked exhaustively with TLC; "
-        "TLC -simulate behaviours and enumerated crash points forced on the real perform_cached_doit by a "
-        "fork/interposition scheduler; recorded operation traces validated by Trace_CacheFS with TLC",
-        "Exhaustive model checking of the caching algorithm's design for every interleaving/crash point within "
-        "small bounds, bound to the code in both directions: specification behaviours are replayed as schedules "
-        "on the real function, and every recorded file-operation trace must be a behaviour of the specification "
-        "with ReturnsDoit/NeverRaises evaluated on the logged results. Histories x crash points x schedules is "
-        "exactly the quantifier tests cannot sample.",
-        "Trusted: TLC, the inode model of POSIX open/replace, the interposition layer (open/os.open/stat/replace/unlink "
-        "on the cache directory), SIGKILL between operations or after n bytes as the crash model; bounds: 2-3 processes, "
-        "3 expressions (2 colliding), <=5 calls, <=2 crashes per behaviour.",
-        "DESIGN.md §4 C16",
-    ),
-}
-
 NOT_YET = "check not built yet in this round (see DESIGN.md §9 construction order)"
 
 
@@ -34,8 +15,17 @@ def build() -> dict:
     for p in props:
         pid = p["id"]
         mod = ROOT / "harness" / "vf" / "props" / f"{pid.lower()}.py"
-        if pid in TABLE and mod.exists():
-            level, tech, text, note, ref = TABLE[pid]
+        meta = None
+        if mod.exists():
+            import importlib
+
+            m = importlib.import_module(f"vf.props.{pid.lower()}")
+            meta = getattr(m, "META", None)
+            if meta and meta.get("claimed", True) is False:
+                NA_REASONS.setdefault(pid, meta.get("reason", NOT_YET))
+                meta = None
+        if meta:
+            level, tech, text, note, ref = m.LEVEL, meta["technique"], meta["text"], meta["note"], meta["design_ref"]
             checks.append({
                 "property_id": pid,
                 "quick_cmd": f"bin/vcheck {pid} --tier quick",
